@@ -42,6 +42,9 @@ class Violation(Exception):
     key    : stable identification used to match known findings (defaults to cls)
     """
     def __init__(self, prop, cls, cycle, detail, key=None):
+        detail = str(detail)
+        if len(detail) > 600:
+            detail = detail[:400] + f" ...[{len(detail) - 560} characters]... " + detail[-160:]
         super().__init__(f"{prop} {cls} @{cycle}: {detail}")
         self.prop = prop
         self.cls = cls
